@@ -2047,7 +2047,14 @@ getattr_delegate(trait_object *trait, has_traits_object *obj, PyObject *name)
     tp = Py_TYPE(delegate);
 
     if (tp->tp_getattro != NULL) {
+        /* The delegate's attribute may itself be delegated (possibly back to
+           this object): bound the recursion like any other C recursion. */
+        if (Py_EnterRecursiveCall(" while getting a delegated attribute")) {
+            result = NULL;
+            goto done;
+        }
         result = (*tp->tp_getattro)(delegate, delegate_attr_name);
+        Py_LeaveRecursiveCall();
         goto done;
     }
 
